@@ -33,8 +33,17 @@ def parse_trace(path, dump):
     """per logical dump file: list of events ('create',) ('write', offered, result) ('rename', final) ('close',)"""
     fds, files, order = {}, {}, []
     line_re = re.compile(r"^(\d+)\s+(\w+)\((.*)\)\s+=\s+(-?\d+)(.*)$")
+    pending = {}          # pid -> text of a call that strace reported as `<unfinished ...>` (another thread's call was printed in between)
     for l in open(path, errors="replace"):
-        m = line_re.match(l.rstrip())
+        l = l.rstrip()
+        um = re.match(r"^(\d+)\s+(.*) <unfinished \.\.\.>$", l)
+        if um:
+            pending[um.group(1)] = um.group(2)
+            continue
+        rm = re.match(r"^(\d+)\s+<\.\.\. \w+ resumed>(.*)$", l)
+        if rm and rm.group(1) in pending:
+            l = "%s %s%s" % (rm.group(1), pending.pop(rm.group(1)), rm.group(2))
+        m = line_re.match(l)
         if not m:
             continue
         _pid, call, args, ret, tail = m.groups()
